@@ -89,7 +89,8 @@ VERIF_HARNESS(h_s03)
   auto const parser{p::make_lexeme(p::literal{'a'} >> p::literal{'b'}) >> p::literal{'c'}};
   check(parser, p::skipper::space(), g, 0, 6, len());
 }
-//@harness h_s03 param n=0..4 tier=quick loop=20
+//@harness h_s03 param n=0..3 tier=quick loop=20
+//@harness h_s03 param n=4..4 tier=thorough loop=20
 
 // s04: a NON-repeating literal skipper: exactly one '_' is demanded at the start and between the parts of a sequence
 VERIF_HARNESS(h_s04)
@@ -152,8 +153,8 @@ VERIF_HARNESS(h_s09)
                 fcppt::variant::object<std::vector<fcppt::tuple::object<fcppt::optional::object<fcppt::unit>, char>>, std::string>>);
   check(parser, p::skipper::space(), g, 0, 10, len());
 }
-//@harness h_s09 param n=0..3 tier=quick loop=20
-//@harness h_s09 param n=4..4 tier=thorough loop=20 wall=900
+//@harness h_s09 param n=0..2 tier=quick loop=20
+//@harness h_s09 param n=3..4 tier=thorough loop=20 wall=900
 
 // n01: uint<unsigned> >> uint<unsigned> under the space skipper (the documentation's example: "10 20")
 VERIF_HARNESS(h_n01)
